@@ -29,11 +29,13 @@ def run(tier, seed):
     rng = random.Random(seed)
     res = Result()
     res.rule = ("generated document roots (nested directories, file/dir symlinks inside->inside, inside->outside, absolute, dangling, self-loops; a prefix-sharing sibling "
-                "'rootx'; index files incl. symlinked ones; undecodable and empty files) x spellings of every node (literal, percent-encoded, dot segments, //, %2e%2e, %2F, "
+                "'rootx'; index files incl. symlinked ones and links to names of more than 255 bytes; default and configured index names (with slashes, absolute, over-long, NUL); "
+                "undecodable and empty files) x spellings of every node (literal, percent-encoded, dot segments, //, %2e%2e, %2F, "
                 "NUL, backslash, ;params, traversal to the sibling/outside) with listing on/off; non-trivial = distinct (tree, spelling, listing)")
     tmp = scratch_dir("nv-c02-")
     ntrees = 60 if tier == "quick" else 1200
     mcases, iobs, meta = [], [], []
+    indices_of = {}
     try:
         real_tmp = os.path.realpath(tmp)
         for ti in range(ntrees):
@@ -47,7 +49,17 @@ def run(tier, seed):
                 if kind == "f" and payload.startswith(b"SENTINEL"):
                     sentinels[payload.decode("utf-8", "replace")] = os.path.join(real_tmp, rel)
             for listing in (False, True):
-                h = StaticFileHandler(root, enable_directory_listing=listing, max_file_size=64)
+                # index file names: the default pair, or a configured list (pathlib joins each name to the directory: slashes
+                # separate components, an absolute name replaces the directory; an over-long name makes is_file() raise)
+                indices = ["index.gmi", "index.gemini"]
+                if rng.random() < 0.3:
+                    indices = rng.choice([
+                        ["L" * 300, "index.gmi"], ["index.gmi", "L" * 256], ["sub/index.gmi", "index.gemini"], ["sub/" + "L" * 300, "index.gmi"],
+                        [os.path.join(real_tmp, "root", "a"), "index.gmi"], [os.path.join(real_tmp, "outside", "secret.txt"), "index.gmi"],
+                        [os.path.join(real_tmp, "rootx", "sib.gmi")], ["nul\x00name", "index.gmi"], ["../rootx/sib.gmi", "index.gemini"], ["..", "index.gmi"],
+                        ["./index.gmi"], ["sub/", "b.gmi"], ["a", "b.gmi", "c.gemini"], ["missing", "sub/../index.gmi"]])
+                indices_of[(ti, listing)] = indices
+                h = StaticFileHandler(root, default_indices=list(indices), enable_directory_listing=listing, max_file_size=64)
                 rels = [""] + [rel[len("root/"):] for rel, k, p in nodes if rel.startswith("root/")]
                 paths = []
                 for rel in rels:
@@ -68,7 +80,7 @@ def run(tier, seed):
                     except Exception as e:
                         out = e
                     ci = canon_impl(out)
-                    cfg = [fstree.comps(root), ["index.gmi", "index.gemini"], listing, 64]
+                    cfg = [fstree.comps(root), indices, listing, 64]
                     mcases.append(("static", enc([cfg, fsm, req.path])))
                     iobs.append(ci)
                     # OS-refereed facts for the monitor
@@ -107,7 +119,7 @@ def run(tier, seed):
         else: mm = ["raise", m[1].text()]
         if mm != ci:
             res.disagreements.append({"driver": "static", "case": {"tree": [[a, b, (c.decode("utf-8", "replace") if isinstance(c, bytes) else c)] for a, b, c in nodes],
-                                                                    "listing": listing, "path": up}, "model": mm, "impl": ci})
+                                                                    "listing": listing, "path": up, "indices": [i[:80] for i in indices_of[(ti, listing)]]}, "model": mm, "impl": ci})
     mo = run_model_parallel([("C02.ok", enc([root, status, served, leaks])) for (ti, listing, up, ci, root, status, served, leaks, nodes) in meta])
     for me, m in zip(meta, mo):
         if m != enc(True):
